@@ -1,6 +1,7 @@
 import Pyxv.Model.Json
 import Pyxv.Model.Rows
 import Pyxv.Model.Defaults
+import Pyxv.Model.DefaultsRefs
 /-! Driver operations for the defaults / triggers mechanism (`defaults.*`). -/
 namespace Pyxv.Defaults
 open Lean Pyxv
@@ -66,7 +67,7 @@ def model (root : Str) (els : List El) : Json :=
   | some rules =>
     let dyn : Q → Bool := fun d => Lexer.dynamicWith rules d.default d.type
     let ptbl := qPaths [root] els
-    let sub : Path → Str → Str := fun _ s => insertAbs ptbl (s.length + 1) s
+    let sub : Path → Str → Str := subRefs root els
     -- `clean_text_values` → `validate_pyxform_reference_syntax` on every survey cell
     if (questions els).any (fun d => [d.default, d.calcu, d.trigger].any fun c =>
         !(Lexer.refLoop none (Lexer.scanWith rules c).1) && c.length > 2 && isInfix ['$', '{'] c) then
